@@ -14,7 +14,15 @@ RAW_WRITE = ("pwrite", "pwrite64", "write", "ftruncate", "ftruncate64", "falloca
 
 
 def is_write_req(fn, n):
-    return is_call(n, *WRITE_REQ)
+    """a write request on a channel that (may) lead to the device; requests on the undo manager's own
+    undo *file* channel are not device writes"""
+    if not is_call(n, *WRITE_REQ):
+        return False
+    a = n.ev["x"].get("a", [])
+    p = T.path(a[0]) if a else None
+    if p and (p.endswith("->undo_file") or p == "undo_file"):
+        return False
+    return True
 
 
 def is_dirty_mark(fn, n):
@@ -40,3 +48,13 @@ def is_discard_ioctl(fn, n):
         return False
     a = n.ev["x"].get("a", [])
     return len(a) > 1 and bool({"BLKDISCARD", "BLKZEROOUT", "BLKSECDISCARD"} & T.macros(a[1]))
+
+
+def nondevice_call(fn, n):
+    """call that writes the undo manager's own undo *file*, not the device: not to be followed when
+    looking for device write requests"""
+    if not is_call(n, *WRITE_REQ) and not is_call(n, "io_channel_flush", "io_channel_close", "io_channel_set_blksize"):
+        return False
+    a = n.ev["x"].get("a", [])
+    p = T.path(a[0]) if a else None
+    return bool(p and (p.endswith("->undo_file") or p == "undo_file"))
